@@ -36,10 +36,11 @@ type Symbols struct {
 	strs    map[string]string
 	strList []string
 	notes   map[string]bool // assumptions recorded while building terms
+	ground  map[string]string // term text -> ground axiom asserted whenever the term occurs in a query
 }
 
 func newSymbols() *Symbols {
-	return &Symbols{decl: map[string]string{}, strs: map[string]string{}, notes: map[string]bool{}}
+	return &Symbols{decl: map[string]string{}, strs: map[string]string{}, notes: map[string]bool{}, ground: map[string]string{}}
 }
 
 func (s *Symbols) note(msg string) { s.notes[msg] = true }
@@ -396,12 +397,9 @@ func (s *Symbols) usedDecls(texts []string) []string {
 			scan(d)
 		}
 	}
-	if seen["fieldaddr"] && !seen["fieldaddr!axiom"] {
-		if _, ok := s.decl["fieldaddr!axiom"]; ok {
-			seen["fieldaddr!axiom"] = true
-			work = append(work, "fieldaddr!axiom", "fa_base", "fa_field")
-			seen["fa_base"], seen["fa_field"] = true, true
-		}
+	if seen["fieldaddr"] && !seen["fa_base"] {
+		work = append(work, "fa_base", "fa_field")
+		seen["fa_base"], seen["fa_field"] = true, true
 	}
 	// emit in declaration order
 	idx := map[string]int{}
